@@ -35,8 +35,15 @@ type edit struct {
 
 const namedErr = "cannot convert named port for an IP destination"
 
-func compare(before *wm.World, tb wm.ToolResult, e edit, x *fw.Rec) {
-	ta, _ := wm.RunList(e.after.Infos(), false)
+// compareBoth checks the relation on the plain report and on the base connectivity reported with exposure analysis on.
+func compareBoth(before *wm.World, tb, tbX wm.ToolResult, e edit, x *fw.Rec) {
+	compare(before, tb, e, x, false)
+	e.name += " [list --exposure]"
+	compare(before, tbX, e, x, true)
+}
+
+func compare(before *wm.World, tb wm.ToolResult, e edit, x *fw.Rec, exposure bool) {
+	ta, _ := wm.RunList(e.after.Infos(), exposure)
 	x.Count("relation_instances", 1)
 	if tb.Err != nil || ta.Err != nil {
 		for _, t := range []wm.ToolResult{tb, ta} {
@@ -366,11 +373,11 @@ func describe(w *wm.World) func() any {
 }
 
 func Run(r *fw.Run) {
-	r.Rule = "for every world of the scopes every applicable single-step edit (add rule, add policy classified by selector matching, five spelling rewrites) is applied; both worlds go through the real list and are compared pointwise on the common refinement of their IP ranges; an execution is non-trivial when at least one relation instance was compared on a non-empty report; distinct = distinct (report, edit kinds) combinations"
+	r.Rule = "for every world of the scopes every applicable single-step edit (add rule, add policy classified by selector matching, five spelling rewrites) is applied; both worlds go through the real list, without and with exposure analysis (whose base connectivity must obey the same relations), and are compared pointwise on the common refinement of their IP ranges; an execution is non-trivial when at least one relation instance was compared on a non-empty report; distinct = distinct (report, edit kinds) combinations"
 	r.Assume = []string{"NetworkPolicy-only worlds from the alphabets of C01 (<=3 workloads, <=2 policies before the edit)",
 		"pairs where either run ends in the documented named-port-on-IP error are skipped and counted"}
 	if r.Quick() {
-		r.SetBudget(150 * time.Second)
+		r.SetBudget(300 * time.Second)
 	} else {
 		r.SetBudget(25 * time.Minute)
 	}
@@ -382,10 +389,11 @@ func Run(r *fw.Run) {
 		}
 		fw.Explore(r, "spell/"+sc.Name, sc.Mode, sc.Gen, func(w *wm.World, x *fw.Rec) {
 			tb, _ := wm.RunList(w.Infos(), false)
+			tbX, _ := wm.RunList(w.Infos(), true)
 			x.Describe(describe(w))
 			var kinds []string
 			for _, e := range spellings(w) {
-				compare(w, tb, e, x)
+				compareBoth(w, tb, tbX, e, x)
 				kinds = append(kinds, kindOf(e.name))
 			}
 			x.Outcome(tb.OutcomeKey() + strings.Join(kinds, ","))
@@ -430,8 +438,9 @@ func Run(r *fw.Run) {
 		return [2]*wm.World{mk(np), mk(np2)}
 	}, func(ws [2]*wm.World, x *fw.Rec) {
 		tb, _ := wm.RunList(ws[0].Infos(), false)
+		tbX, _ := wm.RunList(ws[0].Infos(), true)
 		x.Describe(describe(ws[0]))
-		compare(ws[0], tb, edit{name: "add-rule " + ws[1].NPs[0].String(), after: ws[1], rel: relSub, has: true}, x)
+		compareBoth(ws[0], tb, tbX, edit{name: "add-rule " + ws[1].NPs[0].String(), after: ws[1], rel: relSub, has: true}, x)
 		x.Outcome(tb.OutcomeKey())
 		if tb.Err == nil && len(tb.Conns) > 0 {
 			x.Nontrivial(tb.OutcomeKey() + ws[1].NPs[0].String())
@@ -474,9 +483,10 @@ func Run(r *fw.Run) {
 	}, func(cs [2]any, x *fw.Rec) {
 		w, np := cs[0].(*wm.World), cs[1].(wm.NP)
 		tb, _ := wm.RunList(w.Infos(), false)
+		tbX, _ := wm.RunList(w.Infos(), true)
 		x.Describe(describe(w))
 		e := addPolicyEdit(w, np)
-		compare(w, tb, e, x)
+		compareBoth(w, tb, tbX, e, x)
 		cl := "locality-only"
 		if e.has {
 			cl = e.rel.String()
